@@ -20,7 +20,7 @@ def sh(cmd, cwd=None, env=None, timeout=3600):
 
 
 def make_slot(k):
-    root = "/tmp/verif-seedslot-%d" % k
+    root = "/tmp/verif-seedslot-%d-%d" % (os.getpid(), k)
     if os.path.exists(root):
         sh("git -C /repo worktree remove --force %s/repo" % root)
         shutil.rmtree(root, ignore_errors=True)
